@@ -118,4 +118,43 @@ theorem accepted_signature_is_canonical (p : Params) (hp : p ∈ allParams) (sig
     refine ⟨c, z, h, husig, hE, fun sig' hb' hl' hu' => ?_⟩
     rw [(unpack_sig_spec p hp sig' hl' hb' c z h hu').2.2.2.2.2.2, ← hE]
 
+open DV.VerifyFips DV.EncodeSpec DV.XofSpec in
+/-- **what a second accepted signature would be** (the part of the property that cannot be a theorem, delimited):
+    if verification accepts two different byte strings σ ≠ σ′ for the same public key and message, then with their
+    contents (c̃, z, h), (c̃′, z′, h′) and the commitments w1, w1′ that verification reconstructs from them, one of three
+    things holds — (1) the challenges differ (a second, independent solution of the verification equation);
+    (2) same challenge and the *same* reconstructed commitment from a different response (z, h) ≠ (z′, h′)
+    — a short relation A·(z − z′) ≈ 0, the SelfTargetMSIS-type event strong unforgeability assumes away;
+    (3) an explicit SHAKE-256 collision: two different inputs μ ‖ w1Encode(w1) ≠ μ ‖ w1Encode(w1′) with the same
+    digest.  In no case does the code accept two encodings of one content (`accepted_signature_is_canonical`). -/
+theorem second_accepted_signature (p : Params) (pk m sig sig' : List Nat)
+    (h1 : IsAccepted p pk m sig) (h2 : IsAccepted p pk m sig') (hne : sig ≠ sig') :
+    ∃ (ct ct' : List Nat) (z z' h h' w1 w1' : PolyVec),
+      sig = sigEncode p.lvl p.omega ct z h ∧ sig' = sigEncode p.lvl p.omega ct' z' h' ∧
+      (ct ≠ ct' ∨
+       (ct = ct' ∧ (z, h) ≠ (z', h') ∧ w1Encode p.lvl w1 = w1Encode p.lvl w1') ∨
+       (∃ x y : List Nat, x ≠ y ∧ SHAKE256 x p.ctilde = SHAKE256 y p.ctilde ∧
+          x = SHAKE256 (SHAKE256 pk p.trBytes ++ m) CRHBYTES ++ w1Encode p.lvl w1 ∧
+          y = SHAKE256 (SHAKE256 pk p.trBytes ++ m) CRHBYTES ++ w1Encode p.lvl w1')) := by
+  obtain ⟨_, _, ct, z, h, _, _, _, w1, _, hs, _, _, _, _, _, hc⟩ := h1
+  obtain ⟨_, _, ct', z', h', _, _, _, w1', _, hs', _, _, _, _, _, hc'⟩ := h2
+  have hE := hs.2.2.2.2.2.2
+  have hE' := hs'.2.2.2.2.2.2
+  refine ⟨ct, ct', z, z', h, h', w1, w1', hE, hE', ?_⟩
+  by_cases hct : ct = ct'
+  · right
+    by_cases hw : w1Encode p.lvl w1 = w1Encode p.lvl w1'
+    · left
+      refine ⟨hct, ?_, hw⟩
+      intro hzh
+      injection hzh with hz hh
+      apply hne
+      rw [hE, hE', hct, hz, hh]
+    · right
+      refine ⟨_, _, ?_, ?_, rfl, rfl⟩
+      · intro he
+        exact hw (List.append_cancel_left he)
+      · rw [← hc, ← hc', hct]
+  · left; exact hct
+
 end DV.C02
